@@ -152,7 +152,7 @@ def run_workload(ctx) -> None:
                 line = ";".join(str(x) for x in head) + ";" + payload + tail
                 check_line(ctx, schemas[version], version, line)
     # 3. seeded random
-    n_random = ctx.pick(20000, 400000) // ctx.shard_count
+    n_random = ctx.pick(20000, 4000000) // ctx.shard_count
     for _ in range(n_random):
         version = rng.choice(VERSIONS)
         head = gens.random_wellformed(rng)
@@ -162,7 +162,7 @@ def run_workload(ctx) -> None:
             line = ";".join(str(x) for x in head) + ";" + payload + rng.choice(gens.NONPLAIN_TAILS)
             check_line(ctx, schemas[version], version, line)
     # 4. gateway level (pass-through subset)
-    n_gateway = ctx.pick(1500, 20000) // ctx.shard_count
+    n_gateway = ctx.pick(1500, 60000) // ctx.shard_count
     for i in range(n_gateway):
         version = VERSIONS[i % 5]
         node = rng.choice([1, 2, 9, 254, rng.randint(1, 254)])
